@@ -3,14 +3,16 @@
 #  - the Go translator and the translator tables, the Coq development from clean (full .vo build),
 #  - the Go correspondence harness against /repo.
 set -u
-cd /verif
+cd "$(dirname "$0")/.."
+export VERIF_DIR=$(pwd)
 export GOFLAGS=-mod=mod GOPROXY=off GOSUMDB=off GOTOOLCHAIN=local
 mkdir -p .work/tmp
 python3 - <<'PY'
 import sys, os
-sys.path.insert(0, "/verif/bin")
+V = os.environ["VERIF_DIR"]
+sys.path.insert(0, V + "/bin")
 import importlib.machinery, importlib.util
-loader = importlib.machinery.SourceFileLoader("check", "/verif/bin/check")
+loader = importlib.machinery.SourceFileLoader("check", V + "/bin/check")
 spec = importlib.util.spec_from_loader("check", loader)
 check = importlib.util.module_from_spec(spec); loader.exec_module(check)
 with check.Lock("build"):
